@@ -427,13 +427,21 @@ func (n *NodeLN) AddPaymentNotifier(swapId string, payreq string, invoiceType sw
 	node := n.p.N
 	w := node.W
 	w.mu.Lock()
-	defer w.mu.Unlock()
 	nt := &notifier{swapId: swapId, typ: invoiceType}
 	node.Notifiers[payreq] = nt
+	var fire func()
 	if inv := w.LN.Invoices[payreq]; inv != nil && inv.Paid {
 		// waitinvoice returns at once for an invoice that is already paid
 		nt.fired = true
-		w.LN.Notifs = append(w.LN.Notifs, Notif{Node: node.Name, SwapId: swapId, Type: invoiceType, Payreq: payreq})
+		if cb := node.payCb; node.Eager && cb != nil {
+			fire = func() { cb(swapId, invoiceType) }
+		} else {
+			w.LN.Notifs = append(w.LN.Notifs, Notif{Node: node.Name, SwapId: swapId, Type: invoiceType, Payreq: payreq})
+		}
+	}
+	w.mu.Unlock()
+	if fire != nil {
+		n.p.eagerly(fire)
 	}
 }
 
